@@ -130,9 +130,10 @@ def check_case(case) -> Result:
                 # ... and through the composition an adduct ion written with a count loses all its electrons, while the unlabelled
                 # result goes through the adduct-mass routine of the C02 / C03 finding (electrons counted once per term)
                 EQ = refchem.comp_mass(cc, True) - refmass.adduct_mass_library_quirk(pep['adducts'], True)
-        if (abs(LC) > 1e-9 or abs(EQ) > 1e-9) and abs(diff + LC + EQ) <= tol + 1e-6:
-            sig = 'C18/mass/labelled-charge-carriers-not-expressible-without-the-label' if abs(LC) > 1e-9 else \
-                'C18/mass/adduct-electrons-not-multiplied-by-ion-count'
+        if abs(LC) > 1e-9 and abs(diff + LC) <= tol + 1e-6:
+            sig = 'C18/mass/labelled-charge-carriers-not-expressible-without-the-label'
+        elif abs(EQ) > 1e-9 and abs(diff + LC + EQ) <= tol + 1e-6:
+            sig = 'C18/mass/adduct-electrons-not-multiplied-by-ion-count'  # (fixed by 01a12e3; reported again if it returns)
         elif comps and abs(diff - Q) <= qt:
             sig = 'C18/mass/annotation-without-a-residue-repeated-per-residue'
         else:
